@@ -12,9 +12,18 @@ import (
 	"encoding/binary"
 	"encoding/hex"
 	"fmt"
+	"go/ast"
+	"go/parser"
+	"go/token"
 	"math"
 	"math/big"
+	"net"
+	"os"
+	"path/filepath"
+	"runtime"
 	"strings"
+	"sync"
+	"time"
 
 	"filippo.io/edwards25519"
 	"github.com/MixinNetwork/mixin/common"
@@ -37,6 +46,17 @@ type Case struct {
 	Ts      string `json:"ts,omitempty"`
 	T       string `json:"t,omitempty"`
 	Steps   []Step `json:"steps,omitempty"` // seq: presented in this order to ONE node instance
+	Hs      []Hs   `json:"hs,omitempty"`    // handshake: run concurrently through p2p authenticateNeighbor
+}
+
+// one incoming consumer handshake: the sender's message is AgeSec old when the
+// handshake starts and is delivered by the client after DelayMs
+type Hs struct {
+	Sender  string `json:"sender"` // 64-byte seed
+	AgeSec  int64  `json:"age_sec"`
+	DelayMs int64  `json:"delay_ms"`
+	Flag    byte   `json:"flag"`
+	Relayed bool   `json:"relayed,omitempty"` // through updateRemoteRelayerConsumers instead
 }
 
 // one presentation of a message to the node of a sequence
@@ -224,6 +244,241 @@ func stepAuth(c *vh.Ctx, node *kernel.Node, cs Case, failCase Case, modelCase Ca
 	return accepted
 }
 
+// ---- the callers of AuthenticateAs (p2p) ------------------------------------------------
+
+type authCall struct {
+	caller        string
+	rcp           crypto.Hash
+	msg           []byte
+	timeout       int64
+	before, after int64
+	tok           *p2p.AuthToken
+	err           error
+}
+
+// SyncHandle that records what the p2p layer passes and calls the real kernel function
+type recHandle struct {
+	*kernel.Node
+	mu    sync.Mutex
+	calls []authCall
+}
+
+func callerOf() string {
+	pcs := make([]uintptr, 8)
+	n := runtime.Callers(3, pcs)
+	fr := runtime.CallersFrames(pcs[:n])
+	for {
+		f, more := fr.Next()
+		if strings.Contains(f.Function, "/p2p.") {
+			return f.Function[strings.LastIndex(f.Function, "/p2p.")+5:]
+		}
+		if !more {
+			return "?"
+		}
+	}
+}
+
+func (h *recHandle) AuthenticateAs(rcp crypto.Hash, msg []byte, timeoutSec int64) (*p2p.AuthToken, error) {
+	call := authCall{caller: callerOf(), rcp: rcp, msg: bytes.Clone(msg), timeout: timeoutSec}
+	call.before = kernel.VerifClockNow().Unix()
+	call.tok, call.err = h.Node.AuthenticateAs(rcp, msg, timeoutSec)
+	call.after = kernel.VerifClockNow().Unix()
+	h.mu.Lock()
+	h.calls = append(h.calls, call)
+	h.mu.Unlock()
+	return call.tok, call.err
+}
+
+type delayClient struct {
+	delay time.Duration
+	tm    *p2p.TransportMessage
+}
+
+type memAddr struct{}
+
+func (memAddr) Network() string { return "mem" }
+func (memAddr) String() string  { return "mem:0" }
+
+func (d *delayClient) RemoteAddr() net.Addr { return memAddr{} }
+func (d *delayClient) Receive() (*p2p.TransportMessage, error) {
+	time.Sleep(d.delay)
+	return d.tm, nil
+}
+func (d *delayClient) Send([]byte) error { return nil }
+func (d *delayClient) Close(string)      {}
+
+func authTerm(net, rcp, msg []byte, timeout, now int64, tok *p2p.AuthToken) string {
+	hh := blake3.Sum256(msg[:73])
+	var k crypto.Key
+	copy(k[:], msg[40:72])
+	var sg crypto.Signature
+	copy(sg[:], msg[73:137])
+	obs := vh.Err("(N * Z * bool)")
+	if tok != nil {
+		obs = vh.Ok(fmt.Sprintf("(%s, %s, %s)", HN(tok.PeerId[:]), vh.ZU(tok.Timestamp), vh.Bool(tok.IsRelayer)))
+	}
+	return vh.App("CAuth", HN(net), HN(rcp), HB(msg), vh.ZI(timeout), vh.ZI(now), vh.Nat(73), HN(hh[:]),
+		HN(msg[40:72]), HN(refPeerId(net, msg[40:72])), HN(msg[40:72]), HN(hh[:]), HN(msg[73:137]), vh.Bool(k.Verify(crypto.Hash(hh), sg)), obs)
+}
+
+// the call sites that may pass "no freshness test" (0): only the relayed-consumer path
+var zeroLimitSites = map[string]bool{"(*Peer).updateRemoteRelayerConsumers": true}
+
+// all handshakes of the case run at the same time against the real clock
+func runHandshake(c *vh.Ctx, cs Case) {
+	kernel.VerifClockReset()
+	net := hash32(unhex(cs.Net))
+	me := newSender(vh.NewRand(7, cs.Rcp), net) // receiver identity from the case
+	limit := int64(p2p.HandshakeTimeout / time.Second)
+	type result struct {
+		h    *recHandle
+		peer *p2p.Peer
+		err  error
+		msg  []byte
+		ts   int64
+		id   crypto.Hash
+	}
+	res := make([]result, len(cs.Hs))
+	var wg sync.WaitGroup
+	for i, hs := range cs.Hs {
+		x := sender{addr: common.NewAddressFromSeed(unhex(hs.Sender))}
+		x.id = crypto.Hash(refPeerId(net[:], x.addr.PublicSpendKey[:]))
+		h := &recHandle{Node: kernel.VerifAuthNode(net, me.addr, true)}
+		peer := p2p.NewPeer(h, me.id, "mem:1", true)
+		ts := time.Now().Unix() - hs.AgeSec
+		msg := ownMessage(x, uint64(ts), me.id[:], hs.Flag, 73)
+		res[i] = result{h: h, msg: msg, ts: ts, id: x.id}
+		wg.Add(1)
+		go func(i int, hs Hs) {
+			defer wg.Done()
+			if hs.Relayed {
+				time.Sleep(time.Duration(hs.DelayMs) * time.Millisecond)
+				res[i].err = p2p.VerifC30UpdateRemoteRelayerConsumers(peer, me.id, append(append([]byte{}, x.id[:]...), msg...))
+				return
+			}
+			cl := &delayClient{delay: time.Duration(hs.DelayMs) * time.Millisecond, tm: p2p.VerifC30AuthenticationTransportMessage(msg)}
+			res[i].peer, res[i].err = p2p.VerifC30AuthenticateNeighbor(peer, cl)
+		}(i, hs)
+	}
+	wg.Wait()
+	time.Sleep(50 * time.Millisecond)
+	for i, hs := range cs.Hs {
+		r := res[i]
+		one := Case{Op: "handshake", Net: cs.Net, Rcp: cs.Rcp, Hs: []Hs{hs}}
+		kind := fmt.Sprintf("handshake/age=%ds/delay=%dms", hs.AgeSec, hs.DelayMs)
+		if hs.Relayed {
+			kind = "relayed-consumer/" + kind[10:]
+		}
+		accepted := r.err == nil
+		stale := hs.AgeSec > limit
+		r.h.mu.Lock()
+		calls := append([]authCall{}, r.h.calls...)
+		r.h.mu.Unlock()
+		for _, call := range calls {
+			if call.timeout <= 0 && !zeroLimitSites[call.caller] {
+				c.Fail("handshake-limit", fmt.Sprintf("%s passed the clock-skew limit %d to AuthenticateAs (delivery after %d ms): no freshness test on a path other than the relayed-consumer one", call.caller, call.timeout, hs.DelayMs), one)
+			} else if !hs.Relayed && call.timeout != limit {
+				c.Fail("handshake-limit", fmt.Sprintf("%s passed the clock-skew limit %d, the configured handshake timeout is %d", call.caller, call.timeout, limit), one)
+			}
+			term := ""
+			if call.before == call.after {
+				term = authTerm(net[:], call.rcp[:], call.msg, call.timeout, call.before, call.tok)
+			}
+			c.Case(kind, fmt.Sprintf("%s|%d|%d|%v", hs.Sender, hs.AgeSec, hs.DelayMs, hs.Relayed), !stale, one, term)
+		}
+		if hs.Relayed {
+			if len(calls) != 1 || calls[0].timeout != 0 || !accepted {
+				c.Fail("relayed-consumer-path", "the relayed-consumer path no longer authenticates a correctly signed token without a freshness test (known, recorded behaviour)", one)
+			}
+			continue
+		}
+		if accepted && stale {
+			c.Fail("handshake-accept-stale", fmt.Sprintf("authenticateNeighbor accepted a message %d s old (limit %d s) delivered %d ms into the handshake", hs.AgeSec, limit, hs.DelayMs), one)
+		}
+		if accepted && (r.peer == nil || r.peer.IdForNetwork != r.id) {
+			c.Fail("handshake-identity", "the authenticated neighbor does not carry the id derived from the key in the message", one)
+		}
+		if !accepted && !stale && hs.DelayMs <= 2100 && len(calls) == 1 {
+			c.Fail("handshake-reject-fresh", "fresh, correctly signed message refused on the direct-neighbor path: "+r.err.Error(), one)
+		}
+		if len(calls) == 0 && hs.DelayMs <= 2100 {
+			c.Fail("handshake-no-authentication", "authenticateNeighbor returned without calling AuthenticateAs", one)
+		}
+	}
+}
+
+func handshakeCase(r *vh.Rand, withRelayed bool) Case {
+	net := crypto.Hash(blake3.Sum256(r.Bytes(8)))
+	cs := Case{Op: "handshake", Net: hx(net[:]), Rcp: hx(r.Bytes(8))}
+	for _, age := range []int64{0, 11, 3600} {
+		for _, d := range []int64{0, 500, 1900, 2100, 2900} {
+			cs.Hs = append(cs.Hs, Hs{Sender: hx(r.Bytes(64)), AgeSec: age, DelayMs: d, Flag: byte(r.Intn(2))})
+		}
+	}
+	if withRelayed {
+		for _, age := range []int64{0, 3600} {
+			cs.Hs = append(cs.Hs, Hs{Sender: hx(r.Bytes(64)), AgeSec: age, DelayMs: 0, Flag: byte(r.Intn(2)), Relayed: true})
+		}
+	}
+	return cs
+}
+
+// inventory of the call sites of AuthenticateAs in the repository's p2p and kernel
+// sources: the set the dynamic cases above cover must not grow unnoticed, and the
+// literal limit 0 ("no freshness test") may appear only on the relayed-consumer path
+func runCallSites(c *vh.Ctx, cs Case) {
+	repo := os.Getenv("VERIF_REPO")
+	if repo == "" {
+		repo = "/repo"
+	}
+	known := map[string]bool{"authenticateNeighbor": true, "updateRemoteRelayerConsumers": true}
+	fset := token.NewFileSet()
+	found := 0
+	for _, dir := range []string{"p2p", "kernel", "rpc", "."} {
+		pkgs, err := parser.ParseDir(fset, filepath.Join(repo, dir), func(fi os.FileInfo) bool {
+			return !strings.HasSuffix(fi.Name(), "_test.go") && !strings.HasPrefix(fi.Name(), "verif_")
+		}, 0)
+		if err != nil {
+			panic(err)
+		}
+		for _, pkg := range pkgs {
+			for _, f := range pkg.Files {
+				for _, d := range f.Decls {
+					fn, ok := d.(*ast.FuncDecl)
+					if !ok || fn.Body == nil {
+						continue
+					}
+					ast.Inspect(fn.Body, func(n ast.Node) bool {
+						call, ok := n.(*ast.CallExpr)
+						if !ok {
+							return true
+						}
+						sel, ok := call.Fun.(*ast.SelectorExpr)
+						if !ok || sel.Sel.Name != "AuthenticateAs" || len(call.Args) != 3 {
+							return true
+						}
+						found++
+						site := dir + "." + fn.Name.Name
+						lit, isLit := call.Args[2].(*ast.BasicLit)
+						zero := isLit && lit.Value == "0"
+						c.Case("callsite/"+site, site, true, cs, "")
+						if !known[fn.Name.Name] {
+							c.Fail("auth-callsite-new", "new call site of AuthenticateAs not covered by the handshake cases: "+site, cs)
+						}
+						if zero && fn.Name.Name != "updateRemoteRelayerConsumers" {
+							c.Fail("auth-callsite-zero-limit", "AuthenticateAs called with the literal limit 0 (no freshness test) in "+site, cs)
+						}
+						return true
+					})
+				}
+			}
+		}
+	}
+	if found < 2 {
+		c.Fail("auth-callsite-missing", fmt.Sprintf("expected the two known call sites of AuthenticateAs, found %d", found), cs)
+	}
+}
+
 // one hexadecimal literal per byte string / big number (see coq/Model/HexLit.v)
 func HB(b []byte) string {
 	if len(b) == 0 {
@@ -284,6 +539,10 @@ func run(c *vh.Ctx, cs Case) {
 		runAuth(c, cs)
 	case "seq":
 		runSeq(c, cs)
+	case "handshake":
+		runHandshake(c, cs)
+	case "callsites":
+		runCallSites(c, cs)
 	default:
 		runFloat(c, cs)
 	}
@@ -631,7 +890,7 @@ func main() {
 		"sub-second offsets), timeouts (handshake value, 0, negative, tiny, huge), timestamps at the window boundary ±2 s; messages from the real " +
 		"BuildAuthenticationMessage and from a builder written from the property text; per scenario one structured variant (wrong length, other " +
 		"recipient, self, foreign signature, flag outside the signed bytes, flag value, other network, extreme timestamp, clock at the boundary, replay, " +
-		"random bytes/key); SEQUENCES presented to one and the same node instance: a genuine message accepted (1-4 times), then its field tampers (flag, flag value, timestamp, refreshed timestamp after expiry, recipient, key; key and signature bytes kept) and all 137 single-byte mutations, interleaved with genuine messages of other peers and repeats, and as control the same tampers BEFORE the genuine one on a fresh node; every step judged by the same stateless oracle and sent to the stateless model. float64 model: integer " +
+		"random bytes/key); SEQUENCES presented to one and the same node instance: a genuine message accepted (1-4 times), then its field tampers (flag, flag value, timestamp, refreshed timestamp after expiry, recipient, key; key and signature bytes kept) and all 137 single-byte mutations, interleaved with genuine messages of other peers and repeats, and as control the same tampers BEFORE the genuine one on a fresh node; every step judged by the same stateless oracle and sent to the stateless model. CALLERS: the real p2p authenticateNeighbor (in-memory client delivering the message 0/0.5/1.9/2.1/2.9 s into the handshake; messages fresh, 11 s and 1 h old) and updateRemoteRelayerConsumers with a recording SyncHandle around the real kernel AuthenticateAs: the skew limit passed must be the handshake timeout on the neighbor path, 0 only on the relayed-consumer path, and no stale message is accepted. float64 model: integer " +
 		"conversions around 2^53..2^64 and skew tests over the full uint64 range. Non-trivial = length, recipient, freshness and not-self hold so the " +
 		"signature check decides; distinct by (network, recipient, message, timeout, clock second)."
 	if c.Replay != "" {
@@ -642,6 +901,10 @@ func main() {
 		return
 	}
 	corpus(c)
+	run(c, Case{Op: "callsites"})
+	for i := c.Scale(1, 4); i > 0; i-- { // real sleeps: all handshakes of a case run at the same time (~3 s per case)
+		run(c, handshakeCase(c.Rng, true))
+	}
 	floatCases(c, c.Scale(300, 6000))
 	n := c.Scale(250, 12000)
 	for i := 0; i < n; i++ {
